@@ -2,7 +2,9 @@
 (* Validates ndjson traces recorded from the real gormx.Transact against    *)
 (* Transact.tla.  One trace = one call:                                     *)
 (*   reset {cfg}                       the environment's choices (the plan) *)
-(*   begin / exec / commit / rollback  recorded by the database driver      *)
+(*   begin / exec / commit / rollback  recorded by the database driver,     *)
+(*                                     whoever asked (Transact, a step,     *)
+(*                                     database/sql on cancellation)        *)
 (*   step / end                        recorded by the step closures        *)
 (*   ret / gone                        recorded by the caller               *)
 (* Every event is passed unchanged to the action of the specification that  *)
@@ -15,7 +17,7 @@ TraceLog == ndJsonDeserialize(IOEnv.VERIF_TRACE)
 VARIABLES l
 tvars == <<allvars, l>>
 
-EmptyCfg == [n |-> 0, steps |-> <<>>, begin |-> TRUE, commit |-> TRUE, rollback |-> TRUE]
+EmptyCfg == MkCfg(0, <<>>, TRUE, TRUE, TRUE, -1)
 
 TraceInit ==
   /\ l = 1
